@@ -65,7 +65,7 @@ impl DataItem for NumberItem {
             NumberType::Binary      => format!("{:#b}", self.0 as i32),
             NumberType::Octal       => format!("{:#o}", self.0 as i32),
             NumberType::Hexadecimal => format!("{:#X}", self.0 as i32),
-            NumberType::Raw         => format!("{}", self.0 as i32)
+            NumberType::Raw         => format!("{}", self.0 as i64)
         }
     }
     fn unary(&self, unary: UnaryType) -> Rc<dyn DataItem> {
